@@ -1725,6 +1725,11 @@ class LeCreditBasedChannel(utils.EventEmitter):
         disconnection_result = asyncio.get_running_loop().create_future()
         self.disconnection_result = disconnection_result
 
+        self._send_disconnection_request()
+
+        return await disconnection_result
+
+    def _send_disconnection_request(self) -> None:
         self._change_state(self.State.DISCONNECTING)
         self.flush_output()
         self.send_control_frame(
@@ -1735,7 +1740,18 @@ class LeCreditBasedChannel(utils.EventEmitter):
             )
         )
 
-        return await disconnection_result
+    def abandon(self) -> None:
+        """
+        Give up on a connection attempt whose caller is no longer waiting for it.
+
+        If the peer has accepted the channel, it is closed. If the request is still
+        pending, the channel keeps its CID until the response arrives and is closed
+        then.
+        """
+        if self.state == self.State.CONNECTED:
+            self._send_disconnection_request()
+        elif self.state == self.State.CONNECTION_ERROR:
+            self.manager.on_channel_closed(self)
 
     def abort(self) -> None:
         if self.state in (self.State.CONNECTED, self.State.DISCONNECTING):
@@ -1844,20 +1860,25 @@ class LeCreditBasedChannel(utils.EventEmitter):
             self.peer_mps = response.mps
             self.credits = response.initial_credits
             self.connected = True
-            self.connection_result.set_result(self)
+            if not self.connection_result.cancelled():
+                self.connection_result.set_result(self)
             self._change_state(self.State.CONNECTED)
         else:
-            self.connection_result.set_exception(
-                L2capError(
-                    response.result,
-                    L2CAP_LE_Credit_Based_Connection_Response.Result(
-                        response.result
-                    ).name,
+            if not self.connection_result.cancelled():
+                self.connection_result.set_exception(
+                    L2capError(
+                        response.result,
+                        L2CAP_LE_Credit_Based_Connection_Response.Result(
+                            response.result
+                        ).name,
+                    )
                 )
-            )
             self._change_state(self.State.CONNECTION_ERROR)
 
         # Cleanup
+        if self.connection_result.cancelled():
+            # The caller gave up waiting for this response
+            self.abandon()
         self.connection_result = None
 
     def on_enhanced_connection_response(
@@ -2916,7 +2937,14 @@ class ChannelManager:
         for channel, destination_cid in zip(channels, response.destination_cid):
             channel.on_enhanced_connection_response(destination_cid, response)
 
-        if (
+        if connection_result.cancelled():
+            # The caller gave up waiting for this response
+            for channel in channels:
+                if channel.state == LeCreditBasedChannel.State.CONNECTED:
+                    channel.abandon()
+                else:
+                    self.on_channel_closed(channel)
+        elif (
             response.result
             == L2CAP_Credit_Based_Connection_Response.Result.ALL_CONNECTIONS_SUCCESSFUL
         ):
@@ -2980,6 +3008,9 @@ class ChannelManager:
         # Connect
         try:
             await channel.connect()
+        except asyncio.CancelledError:
+            channel.abandon()
+            raise
         except Exception:
             logger.exception('connection failed')
             del connection_channels[source_cid]
@@ -3093,6 +3124,10 @@ class ChannelManager:
         # Connect
         try:
             await connection_result
+        except asyncio.CancelledError:
+            for channel in channels:
+                channel.abandon()
+            raise
         except Exception:
             logger.exception('connection failed')
             for cid in source_cids:
